@@ -158,3 +158,62 @@ package kvgraph
 //@   loop 1 invariant done: forall j :: 0 <= j && j <= rangeindex && slnth(bsplit(fields[j], "."), 0) == graph ==> !has(reg, fields[j])
 //@   ensures removed: forall f:Str :: old(has(reg, f)) && slnth(bsplit(f, "."), 0) == graph ==> !has(reg, f)
 //@   ensures isolated: forall f:Str :: old(has(reg, f)) && slnth(bsplit(f, "."), 0) != graph ==> has(reg, f)
+
+// ---- C03: mutators against the abstract graph -----------------------------------------
+// The abstract graph is a view of the store: vertex (g,id) exists iff VertexKey(g,id) is
+// stored; edge (g,eid,src,dst,label) iff EdgeKey(...) is, with one SrcEdgeKey and one
+// DstEdgeKey entry per edge. kvhas/kvval are the stored keys/values (spec/kv.gvc);
+// idxkey(k) marks keys of the secondary index. Each mutator's postcondition speaks about
+// EVERY key (the touched ones and the frame), so the whole view is determined.
+
+//@ func insertVertex
+//@   property C03 C16
+//@   option prelude=keys,kv
+//@   option load=kvindex,kvi,gripql
+//@   option globals=kvgraph
+//@   modifies KV.
+//@   requires nonnil: tx != nil && idx != nil && vertex != nil
+//@   ensures rejected: !vertexValid(vertex) ==> result != nil && same(kvdom(), old(kvdom())) && same(kvvals(), old(kvvals()))
+//@   ensures acked: result == nil ==> kvhas(VertexKey(graph, vertex.Gid)) && kvval(VertexKey(graph, vertex.Gid)) == pmarshal(box(vertex))
+//@   ensures frame: forall k:Str :: k != VertexKey(graph, vertex.Gid) && !idxkey(k) ==> ((kvhas(k) <==> old(kvhas(k))) && kvval(k) == old(kvval(k)))
+
+//@ func insertEdge
+//@   property C03 C16
+//@   option prelude=keys,kv
+//@   option load=kvindex,kvi,gripql
+//@   option globals=kvgraph
+//@   modifies KV.
+//@   requires nonnil: tx != nil && idx != nil && edge != nil
+//@   let ek = EdgeKey(graph, edge.Gid, edge.From, edge.To, edge.Label, 1)
+//@   let sk = SrcEdgeKey(graph, edge.From, edge.To, edge.Gid, edge.Label, 1)
+//@   let dk = DstEdgeKey(graph, edge.From, edge.To, edge.Gid, edge.Label, 1)
+//@   ensures rejected: !edgeValid(edge) ==> result != nil && same(kvdom(), old(kvdom())) && same(kvvals(), old(kvvals()))
+//@   ensures acked: result == nil ==> kvhas(ek) && kvhas(sk) && kvhas(dk) && kvval(ek) == pmarshal(box(edge))
+//@   ensures frame: forall k:Str :: k != ek && k != sk && k != dk && !idxkey(k) ==> ((kvhas(k) <==> old(kvhas(k))) && kvval(k) == old(kvval(k)))
+
+// DelEdge removes the edge key found under the edge-id prefix together with exactly its
+// by-source and by-destination entries, touches the graph's timestamp, and changes
+// nothing else; an absent edge is an error that changes nothing.
+//@ func (*KVInterfaceGDB).DelEdge
+//@   property C03
+//@   option prelude=keys,kv
+//@   option load=kvindex,kvi,timestamp
+//@   option globals=kvgraph
+//@   modifies KV. TS.
+//@   requires nonnil: kgdb != nil && kgdb.kvg != nil && kgdb.kvg.kv != nil && kgdb.kvg.ts != nil
+//@   let g = kgdb.graph
+//@   let pre = EdgeKeyPrefix(kgdb.graph, eid)
+//@   let parts = bsplit(ekey, sep0)
+//@   let sk = SrcEdgeKey(kgdb.graph, slnth(parts, 3), slnth(parts, 4), eid, slnth(parts, 5), bget(slnth(parts, 6), 0))
+//@   let dk = DstEdgeKey(kgdb.graph, slnth(parts, 3), slnth(parts, 4), eid, slnth(parts, 5), bget(slnth(parts, 6), 0))
+//@   loop 101 invariant found: ekey != "" ==> kvhas(ekey) && hasprefix(ekey, ekeyPrefix)
+//@   loop 101 invariant store: same(kvdom(), old(kvdom())) && same(kvvals(), old(kvvals()))
+//@   loop 101 invariant iter: itvalid() ==> kvhas(itpos())
+//@   loop 101 invariant first: ekey == "" ==> (itvalid() <==> (exists j:Str :: kvhas(j) && ble(ekeyPrefix, j))) &&
+//@       (itvalid() ==> ble(ekeyPrefix, itpos()) && (forall j:Str :: kvhas(j) && ble(ekeyPrefix, j) ==> ble(itpos(), j)))
+//@   ensures absent: (forall k:Str :: old(kvhas(k)) ==> !hasprefix(k, pre)) ==> result != nil && same(kvdom(), old(kvdom())) && same(touchedset(), old(touchedset()))
+//@   ensures present: (exists k:Str :: old(kvhas(k)) && hasprefix(k, pre)) ==> ekey != ""
+//@   ensures found: result == nil ==> old(kvhas(ekey)) && hasprefix(ekey, pre)
+//@   ensures removed: result == nil ==> !kvhas(ekey) && !kvhas(sk) && !kvhas(dk)
+//@   ensures frame: result == nil ==> (forall k:Str :: k != ekey && k != sk && k != dk ==> ((kvhas(k) <==> old(kvhas(k))) && kvval(k) == old(kvval(k))))
+//@   ensures touch: result == nil ==> touched(kgdb.graph)
